@@ -205,7 +205,7 @@ func run[P curves.Point[P, B, S], B algebra.PrimeFieldElement[B], S algebra.Prim
 		return fail("policy: %v", err)
 	}
 	var dealt *keys.Dealt[P, S]
-	if p := vh.Safely(func() { dealt, err = keys.Deal[P, S](curve, pol, vh.NewRng(cfg.Seed, cfg.Prop, "deal", 0)) }); p != "" {
+	if p := vh.Safely(func() { dealt, err = keys.Material[P, S](cfg.Common, curve, pol) }); p != "" {
 		return fail("dealer panicked: %s", p)
 	}
 	if err != nil {
